@@ -65,7 +65,10 @@ def lower : Handler := fun j => do
     let byValue := match j.getObjVal? "byValue" with
       | .ok (Json.bool b) => b
       | _ => false
-    match transformDma byValue src dst rs rd with
+    let ignore := match j.getObjVal? "ignore" with
+      | .ok (Json.bool b) => b
+      | _ => false
+    match (if ignore then transformDmaIgnore src dst rs rd else transformDma byValue src dst rs rd) with
     | .ok l =>
       return Json.mkObj [("path", Json.str "transform"), ("prog", jProg l.prog), ("tS", jTsl l.tS), ("tD", jTsl l.tD),
         ("lcb", jList jStride l.lcb), ("entries", jList (jList jEntry) l.nested),
